@@ -36,12 +36,11 @@ theorem grammar_functional (ls : List (List Char)) (r r' : Record) (h : Spec.Rec
   rw [a] at b; injection b
 
 /-- the characters of the significant lines of a block (bytes decoded as any Go program sees them) -/
-def blockChars (b : List Line) : List (List Char) := (significant b).1.map (fun l => decodeGo l.text)
+abbrev blockChars (b : List Line) : List (List Char) := KlogV.blockChars b
 
 /-- A text denotes records `rs`: its blocks (C08: maximal groups of non-blank lines, separated by
 blank lines) conform to the grammar one by one, in file order. -/
-def DocOf (t : Bytes) (rs : List Record) : Prop :=
-  Spec.Forall2 (fun b r => Spec.RecordLines (blockChars b) r) (blocksOf t) rs
+abbrev DocOf (t : Bytes) (rs : List Record) : Prop := KlogV.DocOf t rs
 
 theorem doc_complete (t : Bytes) (rs : List Record) (h : DocOf t rs)
     (hn : ∀ b ∈ blocksOf t, ∀ l ∈ blockChars b, ¬ HasLongDigitRun l) :
